@@ -2,8 +2,11 @@ import PonyVerif.Lemmas.RowLock
 /-
   C35 — locked rows and serializable sessions cannot be overwritten concurrently.
 
-  Theorems about `Model/RowLock.lean` for ALL schedules (any number of sessions, any lock domains, any programs),
+  Theorems about `Model/RowLock.lean` for ALL schedules (any number of sessions, any lock domains, any programs,
+  any number of transactions per session: `commitMid` = `commit()` / `db.commit()` inside the `db_session`),
   proved from one invariant preserved by every step (`Lemmas/RowLock.lean: step_inv`).
+  The lock guarantees hold PER TRANSACTION: a commit in the middle of a session ends the transaction, releases the lock
+  and clears `for_update`; afterwards the optimistic check applies again.
 -/
 namespace PonyVerif.Props.C35
 open PonyVerif.Model.RowLock PonyVerif.Lemmas.RowLock
@@ -90,16 +93,94 @@ theorem C35_locked_row_step (n : Nat) (σ : St) (s t : Sid) (a : Act) (o : Obj) 
   have hst' : ((step n σ t a).1.sess s).stable o = some v := by rw [frame]; exact hst
   exact ⟨by rw [(hI'.sok s).stab o v hst', (hI.sok s).stab o v hst], hst'⟩
 
-/-- **No committed write is lost.**  In every reachable state the monitor that compares, at every commit, the value
-    each pending write was based on (what the writer had seen of the object: read under the lock, or verified by the
-    optimistic `WHERE` of its UPDATE) with the committed value just before the commit has never fired; and right now
-    every pending write of every session is still based on the committed value. -/
-theorem C35_no_lost_write (n : Nat) (db : Obj → Val) (cfg : Sid → Bool × Bool) (dom : Sid → Nat) (sched : List (Sid × Act))
-    (h : WellFormed n cfg sched) (s : Sid) (o : Obj) (r : Val) :
+/-- every commit in the middle of a session is made by a session whose UPDATEs carry the optimistic check -/
+def Guarded (n : Nat) : St → List (Sid × Act) → Prop
+  | _, [] => True
+  | σ, (s, a) :: t => (a = .commitMid → (σ.sess s).checks = true) ∧ Guarded n (step n σ s a).1 t
+
+theorem run_unguarded (n : Nat) (sched : List (Sid × Act)) : ∀ (σ : St), σ.unguarded = false → Guarded n σ sched →
+    (run n σ sched).unguarded = false := by
+  induction sched with
+  | nil => intro σ h _; exact h
+  | cons p t ih =>
+    intro σ h hg
+    obtain ⟨s, a⟩ := p
+    refine ih _ ?_ hg.2
+    rw [step_unguarded a, h]
+    by_cases ha : a = .commitMid
+    · simp [hg.1 ha]
+    · simp [ha]
+
+/-- the full statement: no commit ever overwrites a committed value its writer had not seen -/
+def C35_no_lost_write_full : Prop :=
+  ∀ (n : Nat) (db : Obj → Val) (cfg : Sid → Bool × Bool) (dom : Sid → Nat) (sched : List (Sid × Act)),
+    WellFormed n cfg sched → (reach n db cfg dom sched).lost = false
+
+/-- **The full statement is false on the code as it is** (known finding `nocheck-session-stale-write-after-commit`):
+    a session without optimistic checks (`optimistic=False`; `serializable=True` switches them off too) that commits in
+    its middle keeps its identity map; session 1 commits x=50 after that commit; session 0 then saves 7 computed from
+    the 5 it read in its FIRST transaction - with no WHERE on x - and the 50 is gone.  The engine replays this schedule
+    on the real code on every run. -/
+theorem C35_no_lost_write_full_false : ¬ C35_no_lost_write_full := by
+  intro h
+  have := h 2 (fun _ => 5) (fun s => if s = 0 then (true, false) else (false, true)) (fun _ => 0)
+    [(0, .read 0), (0, .commitMid), (1, .read 0), (1, .update 0 50), (1, .commit), (0, .update 0 7), (0, .commit)]
+    ⟨by intro s; by_cases h : s = 0 <;> simp [h], by decide⟩
+  revert this
+  decide
+
+/-- **No committed write is lost** (strongest true form).  For every schedule in which the sessions that commit in
+    their middle are sessions whose UPDATEs carry the optimistic check (`Guarded`; sessions without checks may do
+    anything else, including several locking loads, and sessions with checks may commit as often as they like): the
+    monitor that compares, at every commit, the value each pending write was based on (read under the lock, or verified
+    by the optimistic `WHERE` of its UPDATE) with the committed value just before the commit has never fired; and right
+    now every pending write of such a session is still based on the committed value. -/
+theorem C35_no_lost_write_partial (n : Nat) (db : Obj → Val) (cfg : Sid → Bool × Bool) (dom : Sid → Nat) (sched : List (Sid × Act))
+    (h : WellFormed n cfg sched) (hg : Guarded n (St.init db cfg dom) sched) (s : Sid) (o : Obj) (r : Val) :
     let σ := reach n db cfg dom sched
-    σ.lost = false ∧ ((σ.sess s).pend o ≠ none → (σ.sess s).basis o = some r → σ.db o = r) := by
+    σ.lost = false ∧
+    ((σ.sess s).checks = true ∨ (σ.sess s).renewed = false →
+      (σ.sess s).pend o ≠ none → (σ.sess s).basis o = some r → σ.db o = r) := by
   intro σ
-  exact ⟨(reach_inv h).lost, ((reach_inv h).sok s).bas o r⟩
+  have hu : σ.unguarded = false := run_unguarded n sched _ rfl hg
+  exact ⟨(reach_inv h).lost hu, fun hc => ((reach_inv h).sok s).bas hc o r⟩
+
+/-- **After a commit the optimistic check applies again.**  A `commit()` in the middle of a session ends the
+    transaction: nothing stays locked or stable, the process-wide lock is free, the session goes on (immediate from now
+    on, as `SessionCache.commit` sets `cache.immediate = True`) ... -/
+theorem C35_mid_commit_releases (n : Nat) (σ : St) (s : Sid) (o : Obj) (hI : Inv n σ) (hact : (σ.sess s).status = .active) :
+    let σ' := (step n σ s .commitMid).1
+    (σ'.sess s).forUpd o = false ∧ (σ'.sess s).stable o = none ∧ (σ'.sess s).inTxn = false ∧
+    (σ'.sess s).status = .active ∧ (σ'.sess s).immediate = true ∧ (σ'.sess s).seen o = (σ.sess s).seen o ∧
+    ((σ.sess s).inTxn = true → σ'.lock (σ.dom s) = none) := by
+  intro σ'
+  have e : σ' = commitSess n σ s false := by
+    show (step n σ s .commitMid).1 = _
+    unfold step; dsimp only; rw [if_neg (by simpa using hact)]
+  rw [e]
+  unfold commitSess
+  dsimp only
+  by_cases hin : (σ.sess s).inTxn = true
+  · rw [if_pos hin]; simp
+  · rw [if_neg hin]
+    have hin' : (σ.sess s).inTxn = false := by simpa using hin
+    have hcl := (hI.sok s).clean hin' o
+    simp [hin', hcl.2.2.1, hact]
+
+/-- ... and an UPDATE of an object that is not locked IN THE CURRENT TRANSACTION, by a session with optimistic checks,
+    is refused as soon as the row no longer holds what the session knows of it -/
+theorem C35_check_applies_again (n : Nat) (σ : St) (s : Sid) (o : Obj) (r v : Val)
+    (hact : (σ.sess s).status = .active) (hin : (σ.sess s).inTxn = true) (hchk : (σ.sess s).checks = true)
+    (hfu : (σ.sess s).forUpd o = false) (hseen : (σ.sess s).seen o = some r) (hdiff : ownView σ s o ≠ r) :
+    (step n σ s (.update o v)).2 = .optimisticCheckError := by
+  unfold step
+  dsimp only
+  rw [if_neg (by simpa using hact), hseen]
+  dsimp only
+  have : ensureTxn n σ s = .ok σ := by unfold ensureTxn; dsimp only; rw [if_pos hin]
+  rw [this]
+  dsimp only
+  rw [if_pos (by simp [hchk, hfu, hdiff])]
 
 /-- a commit publishes exactly the session's pending writes and nothing else -/
 theorem C35_commit_publishes (n : Nat) (σ : St) (s : Sid) (o : Obj)
@@ -107,7 +188,10 @@ theorem C35_commit_publishes (n : Nat) (σ : St) (s : Sid) (o : Obj)
     (step n σ s .commit).1.db o = ((σ.sess s).pend o).getD (σ.db o) := by
   unfold step
   dsimp only
-  rw [if_neg (by simpa using hact), if_pos hin]
+  rw [if_neg (by simpa using hact)]
+  unfold commitSess
+  dsimp only
+  rw [if_pos hin]
 
 /-- **Waiting ends.**  Only a running session can hold the process-wide lock: once the holder has committed, rolled
     back or failed, the lock is free again (waiters wait for the locker's end, not for ever). -/
